@@ -160,6 +160,10 @@ def run_for(ex, s, env):
         ex.assume(ex.to_bool(C.eval_spec_expr(ex, inv, inv_env(done, rest, idx))))
     for h in spec.get("hints", []):
         ex.assume(ex.to_bool(C.eval_spec_expr(ex, h, inv_env(done, rest, idx))))
+    # intermediate assertions (proved here, then available on every path through the body)
+    for j, h in enumerate(spec.get("asserts", [])):
+        ex.oblige("inv", f"loop{k}:assert[{j}]",
+                  ex.to_bool(C.eval_spec_expr(ex, h, inv_env(done, rest, idx))), s.lineno, note=h)
     if ex.branch(S.is_nil(rest)):
         # loop finished: done == seq
         ex.assume(done == seq)
